@@ -28,7 +28,7 @@ RULE = ('Hypothesis: rows = distinct noisy asymmetric / bursty oscillations shar
         'BycycleGroup: df_features[i] likewise, models[i].df_features is that table and models[i].sig equals row i. Non-trivial: >= 2 rows '
         'whose reference tables differ pairwise, n_jobs >= 2 and an earlier row delayed longer than a later one; or per-row options that '
         'differ. Distinct = distinct case.')
-ASSUMPTIONS = ['multiprocessing start method is fork (asserted); delays perturb but do not own the OS schedule',
+ASSUMPTIONS = ['multiprocessing start method is fork (asserted) except in the part spawned-workers, which sets spawn / forkserver for the call; delays perturb but do not own the OS schedule',
                'a call that does not return within 90 s is inconclusive (CPython Pool teardown race), never a violation']
 TRUSTED = ['numpy', 'pandas', 'multiprocessing (fork)']
 
@@ -41,9 +41,9 @@ def strategy(draw, tier):
     sigs = [draw(gc.st_row_signal(band, n, k)) for k in range(rows)]
     mode = draw(st.sampled_from(['none', 'dict', 'dict', 'list', 'list', 'same-dict-list']))
     if mode in ('dict', 'same-dict-list'):
-        opts = draw(gc.st_options(band))
+        opts = draw(gc.st_options(band, sparse=True))
     elif mode == 'list':
-        opts = [draw(gc.st_options(band)) for _ in range(rows)]
+        opts = [draw(gc.st_options(band, sparse=True)) for _ in range(rows)]
     else:
         opts = None
     n_jobs = 1 if big and draw(st.booleans()) else draw(st.sampled_from([1, 2, 2, rows, rows + 3, -1]))
@@ -95,7 +95,7 @@ def check(case, rec):
         arg['return_samples'] = case['rs_in_dict']
     gc.install_delays([(X[i], case['delays'][i] / 1000.0) for i in range(rows)])
     try:
-        with warnings.catch_warnings():
+        with warnings.catch_warnings(), gc.start_method(case.get('start_method')):
             warnings.simplefilter('ignore')
             if via == 'func':
                 kw = dict(compute_features_kwargs=arg, axis=0, return_samples=rs, n_jobs=case['n_jobs'], progress=case['progress'])
@@ -140,9 +140,28 @@ def check(case, rec):
     differing_opts = mode == 'list' and any(per_row[i] != per_row[0] for i in range(rows))
     rec.label('rows:%s' % (rows if rows < 7 else '>=8'), 'mode:' + mode, 'n_jobs:%s' % ('-1' if case['n_jobs'] == -1 else ('1' if nj == 1 else ('>=rows' if nj >= rows else '2..rows-1'))),
               'reordered-completion' if reordered else 'in-order', 'via:' + via, 'progress:%s' % case['progress'],
-              'samples:%s' % rs, 'layout:%s' % case.get('layout', 'C'), 'dtype:%s' % case.get('dtype', 'float64'), 'distinct-rows' if distinct else 'duplicate-tables')
-    rec.nontrivial(rows >= 2 and distinct and (reordered or differing_opts))
+              'samples:%s' % rs, 'start-method:%s' % (case.get('start_method') or 'fork'), 'layout:%s' % case.get('layout', 'C'), 'dtype:%s' % case.get('dtype', 'float64'), 'distinct-rows' if distinct else 'duplicate-tables')
+    rec.nontrivial(rows >= 2 and distinct and (reordered or differing_opts or bool(case.get('start_method'))))
+
+
+@st.composite
+def strategy_spawn(draw, tier):
+    """the same cases, small, with the caller's start method set to spawn / forkserver (workers do not inherit the parent's memory)"""
+    case = draw(strategy(tier))
+    case['sigs'] = case['sigs'][:4]
+    if case['mode'] == 'list':
+        case['opts'] = case['opts'][:4]
+    case['delays'] = [0] * len(case['sigs'])
+    if case['mode'] == 'none':
+        band = {'fs': case['fs'], 'f_range': case['f_range']}
+        case['mode'], case['opts'] = 'dict', draw(gc.st_options(band, sparse=True))
+    case['n_jobs'] = draw(st.sampled_from([1, 2, 3]))
+    case['refit'] = False
+    case['start_method'] = draw(st.sampled_from(['spawn', 'spawn', 'forkserver']))
+    return case
 
 
 PARTS = [Part('group-2d', check, strategy=strategy, budget={'quick': 320, 'thorough': 6000}, shards={'quick': 16, 'thorough': 16},
-              time_cap={'quick': 200, 'thorough': 3000})]
+              time_cap={'quick': 200, 'thorough': 3000}),
+         Part('spawned-workers', check, strategy=strategy_spawn, budget={'quick': 24, 'thorough': 400}, shards={'quick': 8, 'thorough': 16},
+              time_cap={'quick': 200, 'thorough': 2400})]
